@@ -40,6 +40,14 @@ def viathunk(n):       # f(n, k) = n == 0 ? k : f(n-1, k)   with k an unevaluate
     return (f"{enc(n)} (ㄷ ㄹ ㄷㅎㄷ) ((ㄴㅇㄱ) ((ㄱㅇㄱ ㄴㄱ ㄷㅎㄷ) (ㄴㅇㄱ) ㄱㅇ ㅎㄷ) {COND} ㅎㄷ ㅎ) ㅎㄷ", "5")
 
 
+def viatry(n):         # retry(n) = ㅅㄷ(n == 0 ? 0 : throw, λe. retry(n-1)): the back edge is the handler's (tail) call
+    return (f"{enc(n)} ((ㄱ (ㄴ ㄷㅂㅎㄴ ㄷㅈㅎㄴ) {COND} ㅎㄷ) ((ㄱㅇㄴ ㄴㄱ ㄷㅎㄷ) ㄴㅇ ㅎㄴ ㅎ) ㅅㄷㅎㄷ ㅎ) ㅎㄴ", "0")
+
+
+def viatrybody(n):     # loop(n) = ㅅㄷ(n == 0 ? 0 : loop(n-1), handler): the back edge is inside the guarded expression
+    return (f"{enc(n)} ((ㄱ ((ㄱㅇㄱ ㄴㄱ ㄷㅎㄷ) ㄱㅇ ㅎㄴ) {COND} ㅎㄷ) (ㄱㅇㄱ ㅎ) ㅅㄷㅎㄷ ㅎ) ㅎㄴ", "0")
+
+
 def nontail(n):        # s(n) = n == 0 ? 0 : n + s(n-1)   (frames grow with n)
     return (f"{enc(n)} ㄱ (ㄱㅇㄱ ((ㄱㅇㄱ ㄴㄱ ㄷㅎㄷ) ㄱㅇ ㅎㄴ) ㄷㅎㄷ) {COND} ㅎㄷ ㅎ ㅎㄴ", str(n * (n + 1) // 2))
 
@@ -53,7 +61,7 @@ def nestfmt(n):        # printing a list nested n deep (KNOWN FINDING for large 
 
 
 TAIL = {'countdown': countdown, 'accum': accum, 'mutual': mutual, 'viabool': viabool, 'rbind': rbind,
-        'viahelper': viahelper, 'viaid': viaid, 'viathunk': viathunk}
+        'viahelper': viahelper, 'viaid': viaid, 'viathunk': viathunk, 'viatry': viatry}
 
 
 @monitor('c05_value')
